@@ -337,14 +337,24 @@ def step (g : GCluster) : GEv → GCluster
   | .deliver j idx =>
     match g.nodes[j]?, g.sent[idx]? with
     | some nd, some m =>
-      if m.origin = j then g
-      else
-        { g with
-          nodes := g.nodes.set j (nd.deliver m.key m.val)
-          log := g.log ++ [⟨j, m.key, m.val⟩] }
+      -- no origin check (`ApplyRemoteDelta` is applied whoever issued the delta)
+      { g with
+        nodes := g.nodes.set j (nd.deliver m.key m.val)
+        log := g.log ++ [⟨j, m.key, m.val⟩] }
     | _, _ => g
 
 def run (g : GCluster) (evs : List GEv) : GCluster := evs.foldl step g
+
+/-- the actor of node `i` crashes and is spawned again (`ReplicatedShardActor::spawn` with the same
+    replica id): empty executor, empty replication state, Lamport clock 0; what it gets back
+    arrives as `deliver` events (its own old deltas included) -/
+def restart (g : GCluster) (i : Nat) : GCluster :=
+  match g.nodes[i]? with
+  | none => g
+  | some nd =>
+    { g with
+      nodes := g.nodes.set i (Node.init nd.rs.rid nd.rs.causal)
+      log := g.log.filter (fun a => a.node ≠ i) }
 
 /-- the step of the repaired front end (`splitCmdFixed`) -/
 def stepFixed (g : GCluster) : GEv → GCluster
@@ -367,7 +377,7 @@ def gunsupported (g : GCluster) : GEv → Option Reason
     | some nd => unsupported nd (.client c)
   | .deliver j idx =>
     match g.nodes[j]?, g.sent[idx]? with
-    | some nd, some m => if m.origin = j then none else unsupported nd (.deliver m.key m.val)
+    | some nd, some m => unsupported nd (.deliver m.key m.val)
     | _, _ => none
 
 def GSupported (g : GCluster) : List GEv → Prop
